@@ -11,6 +11,8 @@
 // deadlock detector: Unregister / Shutdown that never returns.  Recorded traces are validated by TLC against TPImpl.tla.
 #include "system/ThreadPool.h"
 #include "system/SetupSystem.h"
+#include "util/NetworkUtilityFunctions.h"
+#include "util/ByteBuffer.h"
 #include "vsched.h"
 #include "mjson.h"
 #include <set>
@@ -20,7 +22,7 @@ using namespace muscle;
 
 struct Mon {
    int poolSize; std::map<int,int> activeIn; int totalActive, maxActive;
-   std::vector<std::vector<uint32> > handled, submitted; std::vector<bool> unregReturned; bool shutStarted;
+   std::vector<std::vector<uint32> > handled, submitted; std::vector<bool> unregReturned; bool shutStarted;     // shutStarted: set by the HARNESS just before it asks for a shutdown (no event involved)
    std::vector<std::string> violations;
    void Reset(int n, int ps) {poolSize = ps; activeIn.clear(); totalActive = maxActive = 0; handled.assign(n, std::vector<uint32>()); submitted.assign(n, std::vector<uint32>()); unregReturned.assign(n, false); shutStarted = false; violations.clear();}
    void V(const std::string & s) {if (violations.size() < 5) violations.push_back(s);}
@@ -52,7 +54,6 @@ static void ObserveEvent(const vs::Event & e)
    char b[200];
    if (e.name == "NewThread") {g_threadOfObj[(const void *) e.a[1]] = (int) e.a[0]+1; if ((g_record)&&(!g_mute)) G.made.push_back((int) e.a[0]+1); return;}
    if (e.name == "Receive") {g_poolThreadOfTid[e.tid] = (int) e.a[0]+1; if ((g_record)&&(!g_mute)) {snprintf(b, sizeof(b), "{\"e\":\"Receive\",\"t\":%d,\"c\":%d}", (int) e.a[0]+1, CId(e.a[1])); Line(b);} return;}
-   if (e.name == "ShutFlag") M.shutStarted = true;
    if ((!g_record)||(g_mute)) return;
    if (e.name == "Dispatch") G.disp.push_back(std::make_pair(CId(e.a[0]), (int) e.a[1]+1));
    else if (e.name == "Promote") G.promoted = (int) e.a[1];
@@ -115,8 +116,8 @@ static void RunPlan(const std::vector<std::pair<int,uint32> > & plan, int parity
       vs::OpBoundary();
    }
 }
-static void SubmitterA() {vs::ThreadBegin(); RunPlan(P.planA, 0); (void) g_bDone->Wait(); if (P.destroyer) (void) g_cDone->Wait(); delete g_tp; g_tp = NULL; vs::ThreadEnd();}
-static void Destroyer() {vs::ThreadBegin(); for (int k=0; k<P.destroyAfter; k++) vs::OpBoundary(); (void) AbstractObjectRecycler::GlobalFlushAllCachedObjects(); (void) g_cDone->Notify(); vs::ThreadEnd();}
+static void SubmitterA() {vs::ThreadBegin(); RunPlan(P.planA, 0); (void) g_bDone->Wait(); if (P.destroyer) (void) g_cDone->Wait(); M.shutStarted = true; delete g_tp; g_tp = NULL; vs::ThreadEnd();}
+static void Destroyer() {vs::ThreadBegin(); for (int k=0; k<P.destroyAfter; k++) vs::OpBoundary(); M.shutStarted = true; (void) AbstractObjectRecycler::GlobalFlushAllCachedObjects(); (void) g_cDone->Notify(); vs::ThreadEnd();}
 static void SubmitterB() {vs::ThreadBegin(); RunPlan(P.planB, 1); (void) g_bDone->Notify(); vs::ThreadEnd();}
 
 // ------------------------------------------------------------------------------------------------------
@@ -129,7 +130,7 @@ static std::mutex f_vm; static std::vector<std::string> f_viol; static void FV(c
 static thread_local uint32_t f_rng = 1;
 static inline uint32_t FR() {f_rng ^= f_rng << 13; f_rng ^= f_rng >> 17; f_rng ^= f_rng << 5; return f_rng;}
 static int NoiseYield(int, const void *, long) {const uint32_t r = FR()%12; if (r == 0) std::this_thread::yield(); else if (r == 1) {for (volatile int i=0; i<300; i++) {}} return 0;}
-static void FreeEvent(const char * name, const void *, long, long, long, long) {if (!strcmp(name, "ShutFlag")) f_shut = true;}
+static void FreeEvent(const char *, const void *, long, long, long, long) {}     // (the clauses use nothing the code reports about itself: f_shut is set by the harness just before it asks for a shutdown)
 class FreeClient : public IThreadPoolClient {
 public:
    FreeClient(ThreadPool * tp, int id) : IThreadPoolClient(tp), _id(id), _in(0), _unregReturned(false), _nHandled(0) {}
@@ -175,7 +176,7 @@ static void FreeSubmitter(int parity, uint32_t seed)
    }
    f_finished++;
 }
-static void FreeDestroyer() {std::this_thread::sleep_for(std::chrono::microseconds(FP.destroyAfterMs*100)); (void) AbstractObjectRecycler::GlobalFlushAllCachedObjects(); f_progress++; f_finished++;}
+static void FreeDestroyer() {std::this_thread::sleep_for(std::chrono::microseconds(FP.destroyAfterMs*100)); f_shut = true; (void) AbstractObjectRecycler::GlobalFlushAllCachedObjects(); f_progress++; f_finished++;}
 static int Free(uint32 iters, uint32 seed0, const char * outFile)
 {
    FILE * out = fopen(outFile, "w"); if (!out) return 2;
@@ -195,6 +196,7 @@ static int Free(uint32 iters, uint32 seed0, const char * outFile)
       std::atomic<bool> delDone(false);
       if (!stuck) {
          for (size_t k=0; k<ths.size(); k++) ths[k].join();
+         f_shut = true;
          std::thread del([&]{delete tp; delDone = true;});       // the destructor shuts the pool down: it must terminate too
          for (int w=0; (w<15000)&&(!delDone.load()); w++) std::this_thread::sleep_for(std::chrono::milliseconds(2));
          if (delDone.load()) del.join(); else {stuck = true; del.detach();}
@@ -231,6 +233,12 @@ static int Free(uint32 iters, uint32 seed0, const char * outFile)
 int main(int argc, char ** argv)
 {
    CompleteSetupSystem css;
+   // warm-up: the library's pools of sockets, Messages ... are function-local statics constructed on first use, and a recycler registers itself
+   // in the global list from its base-class constructor; a global flush that runs during that construction would call a pure virtual.
+   // A program that flushes while other threads run has long constructed them; so has this harness before its threads start.
+   {ConstSocketRef a, b; (void) CreateConnectedSocketPair(a, b); (void) GetMessageFromPool(0); (void) GetByteBufferFromPool(4);
+    class WarmClient : public IThreadPoolClient {public: WarmClient(ThreadPool * tp) : IThreadPoolClient(tp) {} virtual void MessageReceivedFromThreadPool(const MessageRef &, uint32) {}};
+    ThreadPool wp(1); WarmClient wc(&wp); (void) wc.SendMessageToThreadPool(GetMessageFromPool(1)); wc.SetThreadPool(NULL);}
    if ((argc >= 5)&&(!strcmp(argv[1], "free"))) return Free((uint32) atol(argv[2]), (uint32) atol(argv[3]), argv[4]);
    vs::Install();
    if ((argc < 5)||(strcmp(argv[1], "explore"))) {fprintf(stderr, "usage: tp explore <iters> <seed> <report> [trace [n]]\n"); return 2;}
